@@ -11,7 +11,11 @@
    [fixed] selects between the code before (false) and after (true) the repair
    "compare versions, not strings" of simplify_specifiers:
      key(s) = (s.version, rank)            vs  (Version(s.version), rank)
-     collapse >=v,<=v to ==v unconditionally  vs  raise when an in-bounds != remains. *)
+     collapse >=v,<=v to ==v unconditionally  vs  raise when an in-bounds != remains.
+   [eqv] selects between the code before (false) and after (true) the repair
+   "compare == specifiers by version":
+     elif eq != i: raise   (Specifier.__ne__: operator or version STRING differ, so ==1,==1.0 raises)
+     vs  elif Version(eq.version) != Version(i.version): raise   (the first == met is kept). *)
 From BFG Require Import Base.Chars.
 Local Open Scope N_scope.
 
@@ -70,6 +74,7 @@ Definition spec_eqb (a b : spec) : bool := op_eqb (fst a) (fst b) && veqb (snd a
 
 Section Simplify.
 Variable fixed : bool.
+Variable eqv : bool.
 
 Definition kle (a b : V) : bool := if fixed then leb a b else kleb a b.
 
@@ -78,6 +83,10 @@ Definition key_lt (a b : spec) : bool :=
   if kle (snd a) (snd b) && kle (snd b) (snd a) then rank (fst a) <? rank (fst b)
   else negb (kle (snd b) (snd a)).
 
+(* the test that lets a second == specifier [i] pass next to the kept one [e]:
+   not (eq != i)  vs  not (Version(eq.version) != Version(i.version)) *)
+Definition same_eq (e i : spec) : bool := if eqv then veq (snd e) (snd i) else spec_eqb e i.
+
 Record st := mkst { s_gt : option spec; s_lt : option spec; s_eq : option spec; s_ne : list spec }.
 
 (* one iteration of the for loop; None = raise err() *)
@@ -85,7 +94,7 @@ Definition step (s : st) (i : spec) : option st :=
   match fst i with
   | OEq => match s_eq s with
            | None => Some (mkst (s_gt s) (s_lt s) (Some i) (s_ne s))
-           | Some e => if spec_eqb e i then Some s else None
+           | Some e => if same_eq e i then Some s else None
            end
   | ONe => Some (mkst (s_gt s) (s_lt s) (s_eq s) (s_ne s ++ [i]))
   | OGe | OGt =>
@@ -160,8 +169,8 @@ Definition req_and (a b : req) : option req :=
 Definition simple : Type := str * option spec.
 
 (* Requirement.split(single); Err = ValueError from simplify or from the single check *)
-Definition req_split (fixed single : bool) (r : req) : res (list simple) :=
-  match simplify fixed (snd r) with
+Definition req_split (fixed eqv single : bool) (r : req) : res (list simple) :=
+  match simplify fixed eqv (snd r) with
   | Err => Err
   | Ok [] => Ok [(fst r, None)]
   | Ok specs =>
@@ -201,18 +210,18 @@ Fixpoint insert_by_name (x : simple) (l : list simple) : list simple :=
 Definition sort_by_name (l : list simple) : list simple := fold_right insert_by_name [] l.
 
 (* RequirementSet.split(single) *)
-Fixpoint rs_split_all (fixed single : bool) (rs : (list req)) : res (list simple) :=
+Fixpoint rs_split_all (fixed eqv single : bool) (rs : (list req)) : res (list simple) :=
   match rs with
   | [] => Ok []
   | r :: rest =>
-      match req_split fixed single r with
+      match req_split fixed eqv single r with
       | Err => Err
-      | Ok a => match rs_split_all fixed single rest with Err => Err | Ok b => Ok (a ++ b) end
+      | Ok a => match rs_split_all fixed eqv single rest with Err => Err | Ok b => Ok (a ++ b) end
       end
   end.
 
-Definition rs_split (fixed single : bool) (rs : (list req)) : res (list simple) :=
-  match rs_split_all fixed single rs with Err => Err | Ok l => Ok (sort_by_name l) end.
+Definition rs_split (fixed eqv single : bool) (rs : (list req)) : res (list simple) :=
+  match rs_split_all fixed eqv single rs with Err => Err | Ok l => Ok (sort_by_name l) end.
 
 (* requirement part of PkgConfigInfo.finalize:
      requires_private.update(auto_requires); requires.merge_from(requires_private)
@@ -223,10 +232,10 @@ Definition finalize_sets (requires requires_private auto_requires : list req) : 
   let priv := rs_update (rs_of_list requires_private) auto_requires in
   rs_merge_from pub priv.
 
-Definition finalize_reqs (fixed : bool) (requires requires_private auto_requires conflicts : list req)
+Definition finalize_reqs (fixed eqv : bool) (requires requires_private auto_requires conflicts : list req)
   : res (list simple * list simple * list simple) :=
   let (pub, priv) := finalize_sets requires requires_private auto_requires in
-  match rs_split fixed true pub, rs_split fixed true priv, rs_split fixed false (rs_of_list conflicts) with
+  match rs_split fixed eqv true pub, rs_split fixed eqv true priv, rs_split fixed eqv false (rs_of_list conflicts) with
   | Ok a, Ok b, Ok c => Ok (a, b, c)
   | _, _, _ => Err
   end.
@@ -263,5 +272,5 @@ Definition vparse (s : str) : list N := strip_zeros (split_dots 0 s).
 Definition sv_leb (a b : str) : bool := lex_leb (vparse a) (vparse b).
 
 (* the model the correspondence runs: V = str *)
-Definition simplify_str (fixed : bool) := simplify str str_eqb sv_leb str_leb fixed.
+Definition simplify_str (fixed eqv : bool) := simplify str str_eqb sv_leb str_leb fixed eqv.
 Definition sat_str := sat str sv_leb.
